@@ -117,7 +117,7 @@ class Stats:
         if "sample" in info and info["sample"] is not None:
             if len(self.samples) < self.MAX_SAMPLES and (
                 info.get("nontrivial") or self.evaluations > 50
-            ):
+            ) and info["sample"] not in self.samples:
                 self.samples.append(info["sample"])
 
     def to_dict(self):
@@ -266,8 +266,8 @@ def merge(results):
         total.classes.update(r["classes"])
         total.excluded.update(r["excluded"])
         total.extra.update(r.get("extra", {}))
-        for s in r["samples"]:
-            if len(total.samples) < 8:
+        for s in r["samples"][:2]:
+            if len(total.samples) < 8 and s not in total.samples:
                 total.samples.append(s)
         total.violations.extend(r["violations"])
         if r["error"]:
